@@ -25,7 +25,8 @@ Definition arrow_body_is_block (n : node) : bool :=
   end.
 
 Definition stop_bad (n : node) : option nat :=
-  if is_kind KBlock n then Some (if goodb n then 0 else 1)
+  if is_ns_member n then None
+  else if is_kind KBlock n then Some (if goodb n then 0 else 1)
   else if arrow_body_is_block n then None
   else Some (if goodb n then 0 else 1).
 
@@ -70,6 +71,7 @@ Proof.
     inversion IH; inversion GC; subst. constructor; auto. }
   destruct (stop_kind (Node t cs)); [|exact Z].
   unfold stop_bad. rewrite (proj2 (goodb_good _) G).
+  destruct (is_ns_member (Node t cs)); [exact Z|].
   destruct (is_kind KBlock (Node t cs)); [reflexivity|].
   destruct (arrow_body_is_block (Node t cs)); [exact Z | reflexivity].
 Qed.
@@ -114,7 +116,8 @@ Theorem op_visit_bad c : c_verbosity c <> VOff -> forall fuel root n s n' s',
   op_visit c fuel root n s = Some (n', s') -> good n -> live s -> bad n' = 0 /\ live s'.
 Proof.
   intros Hv fuel root n s n' s' H G L.
-  destruct (op_visit_count stop_bad 0 bad_good bad_arrow c Hv _ _ _ _ _ _ H G L) as [A B].
+  destruct (op_visit_count stop_bad 0 bad_good bad_arrow (fun _ => True) (fun name span _ => eq_refl)
+              c (or_introl eq_refl) (fun _ => I) (fun _ => I) (fun _ _ _ => I) _ _ _ _ _ _ H G L) as [A B].
   split; [|exact B]. change (N.of_nat 0) with 0%N in A. rewrite !N.mul_0_l in A. lia.
 Qed.
 
@@ -192,6 +195,15 @@ Section BlockLevel.
   Lemma bad_plain t cs : plain (Node t cs) = true -> stop_kind (Node t cs) = false ->
     bad (Node t cs) = bad_list cs.
   Proof. intros P S. apply ns_node; assumption. Qed.
+
+  (** A member expression has no weight of its own under [stop_bad], on the hook namespace or not. *)
+  Lemma bad_member lo hi cs : bad (Node (K KMember lo hi) cs) = bad_list cs.
+  Proof.
+    cbn [meas]. change (is_ident (Node (K KMember lo hi) cs)) with false. change (leaf (Node (K KMember lo hi) cs)) with false.
+    cbv iota. unfold stop_kind, stop_bad. change (is_kind KBlock (Node (K KMember lo hi) cs)) with false.
+    change (is_kind KArrow (Node (K KMember lo hi) cs)) with false. cbn [orb].
+    destruct (is_ns_member (Node (K KMember lo hi) cs)); reflexivity.
+  Qed.
 
   (** A block statement weighs zero exactly when it is clean input. *)
   Lemma bad_block lo hi cs : bad (Node (K KBlock lo hi) cs) = 0 -> good (Node (K KBlock lo hi) cs).
@@ -272,10 +284,12 @@ Section BlockLevel.
       pose proof (good_children (K KBlock lo hi) [cx; Node Lst stmts] eq_refl G) as GC.
       destruct (map_st_count no_stop 1 (op_visit c f true) [cx; Node Lst stmts]
                   (fun x _ sx x' sx' Ex Gx Lx => op_visit_count no_stop 1 (fun n G => proj2 G)
-                       (fun n G => eq_trans (arrow_transform_ns n) (proj2 G)) c Hv _ _ _ _ _ _ Ex Gx Lx)
+                       (fun n G => eq_trans (arrow_transform_ns n) (proj2 G))
+                       (fun _ => True) (fun name span _ => eq_refl) c (or_intror Hv) (fun _ => I) (fun _ => I) (fun _ _ _ => I) _ _ _ _ _ _ Ex Gx Lx)
                   _ _ _ E GC L0) as [A1 L1].
       destruct (map_st_count stop_bad 0 (op_visit c f true) [cx; Node Lst stmts]
-                  (fun x _ sx x' sx' Ex Gx Lx => op_visit_count stop_bad 0 bad_good bad_arrow c Hv _ _ _ _ _ _ Ex Gx Lx)
+                  (fun x _ sx x' sx' Ex Gx Lx => op_visit_count stop_bad 0 bad_good bad_arrow
+                       (fun _ => True) (fun name span _ => eq_refl) c (or_introl eq_refl) (fun _ => I) (fun _ => I) (fun _ _ _ => I) _ _ _ _ _ _ Ex Gx Lx)
                   _ _ _ E GC L0) as [A2 _].
       change (N.of_nat 1) with 1%N in A1. rewrite !N.mul_1_l in A1.
       change (N.of_nat 0) with 0%N in A2. rewrite !N.mul_0_l in A2.
@@ -296,6 +310,9 @@ Section BlockLevel.
         assert (C1 : stmt_count (Node (K KBlock lo hi) [cx'; Node Lst stmts'']) n' (o_t s) t') by (eapply CH; [exact H | reflexivity | exact B1]). unfold stmt_count in *.
         rewrite (ns_plain (K KBlock lo hi) [cx'; Node Lst stmts'']) in C1 by reflexivity.
         rewrite N1 in C1. destruct G as [_ Gz]. rewrite Gz. unfold ns_count_list in *. lia.
+    - (* member expression *)
+      change (leaf (Node (K KMember lo hi) cs)) with false in H. cbv iota in H.
+      rewrite bad_member in Z. exact (CH _ _ _ _ _ H eq_refl Z).
     - (* arrow function outside every block *)
       destruct (bad_arrow_node _ _ _ Z) as [[AB ZL] | G].
       + (* block body: the normalisation is the identity *)
